@@ -420,6 +420,7 @@ struct Thr {
     exited: AtomicBool,
     gone: AtomicBool,
     cv_blocking: AtomicUsize,
+    joining: AtomicUsize,
 }
 
 struct Model {
@@ -692,6 +693,15 @@ impl World {
     // -- monitor: model of the wait queues, FIFO, table integrity --------------
 
     fn monitor(&self, tid: Tid) {
+        for t in self.thr.iter() {
+            let j = t.joining.load(SeqCst);
+            let tt = t.tid.load(SeqCst);
+            if j != usize::MAX && tt != usize::MAX {
+                if let Some(cv) = self.sim.waiting_on_cv(tt) {
+                    self.sim.name_object_if_unnamed(cv, format!("T{j}.cv_stopped"));
+                }
+            }
+        }
         let Some(w) = self.index_of_tid(tid) else { return };
         let native = *self.thr[w].native.lock().unwrap();
         let mut model = self.model.lock().unwrap();
@@ -904,7 +914,9 @@ impl World {
                 Op::Poll => self.poll(),
                 Op::Join(j) => {
                     let target = self.thr[*j].dora.lock().unwrap().clone().expect("join target exists");
+                    self.thr[t].joining.store(*j, SeqCst);
                     target.join();
+                    self.thr[t].joining.store(usize::MAX, SeqCst);
                     if !self.thr[*j].exited.load(SeqCst) {
                         self.sim.fail("join-returned-early", format!("T{t}: join(T{j}) returned before T{j} had finished"));
                     }
@@ -968,6 +980,7 @@ pub fn run_case(script: &Script, schedule: Schedule) -> RunResult {
                     exited: AtomicBool::new(false),
                     gone: AtomicBool::new(false),
                     cv_blocking: AtomicUsize::new(0),
+                    joining: AtomicUsize::new(usize::MAX),
                 })
                 .collect(),
             objects: (0..nobj).map(|_| AtomicUsize::new(0)).collect(),
